@@ -484,8 +484,15 @@ def build_class(w: World, spec: ClassSpec):
                 f.default = gen_value(w, f.type if f.type is not None else ("prim", "int"), 2)
             f.factory = _is_mutable(f.default) or w.rng.random() < 0.2
     if spec.kind == "td":
-        from typing import NotRequired, TypedDict
-        ann = {f.name: (w.to_py(f.type) if f.default is NODEFAULT else NotRequired[w.to_py(f.type)]) for f in spec.fields}
+        from typing import NotRequired, Required, TypedDict
+        import zlib
+        # three spellings of the same required / optional split (derived from the spec, not from the world's random stream):
+        # total with NotRequired markers, total=False with Required markers, total with redundant Required markers
+        style = zlib.crc32(repr([(f.name, repr(f.default)[:40]) for f in spec.fields]).encode()) % 3
+        if style == 1:
+            ann = {f.name: (Required[w.to_py(f.type)] if f.default is NODEFAULT else w.to_py(f.type)) for f in spec.fields}
+            return TypedDict(name, ann, total=False)
+        ann = {f.name: ((Required[w.to_py(f.type)] if style == 2 else w.to_py(f.type)) if f.default is NODEFAULT else NotRequired[w.to_py(f.type)]) for f in spec.fields}
         return TypedDict(name, ann)
     if spec.kind in ("attrs", "frozen"):
         d = {}
